@@ -47,6 +47,10 @@ CLAIMED = {
    text='Coq theorems: Ritz consistency (for every order/dims/ranks, real and complex, standard and generalised problems: if the micro eigen-solver answers an eigenpair of the micro pencil at the last micro step, the returned eigenvalue is the Rayleigh quotient x^H A x / x^H G x of the returned tensor), via the closed form of the right environments; best-so-far bookkeeping is monotone. evp.als (eig/eigh, number_ev 1-2, deflation tensors with shift, generalised problems) is modelled end to end and tied to /repo by oracle-tape differential execution; side check against scipy.linalg.eigh: Rayleigh consistency, unit norm, <= lambda_max, fixed point (complex Hermitian), maximal-rank exactness, deflation = shift, monotonicity, inverse power iteration.',
    note='PARTIAL: <= lambda_max, fixed point, exactness at maximal ranks, deflation = shift and convergence of power_method are side-check claims. Defects F06/F07 (conjugation in the left stacks; power_method Rayleigh quotient) were repaired.',
    technique='Coq proof (environment closed form, quadratic-form identity) + oracle-tape correspondence of the full solver', design='6 C08'),
+ 'C09': dict(
+   text='Coq theorems: the operators I + cA built by the schemes are entrywise delta + cA (c = h, -h, -h/2, +h/2); one explicit Euler step equals the dense recurrence when the orthonormalisation does not truncate; accepted time points of the adaptive controller increase strictly and never pass time_end (over Q, every sequence of positive step sizes). explicit Euler, HOD, implicit Euler and trapezoidal rule are modelled as compositions of the C01/C03/C07 models and tied to /repo by oracle-tape differential execution of whole trajectories; side check against dense recurrences (all schemes, varying steps, ALS/MALS, normalize 0/1/2, HOD orders 2-8 with start-up), error estimators, adaptive method.',
+   note='PARTIAL: implicit Euler / trapezoidal exactness rests on the hypothesis that the inner ALS/MALS solve is exact (C07, representable ranks); HOD recurrence, error estimators and unit norms (sqrt) are covered by correspondence + side check. 1-normalisation only under the code\'s own precondition (non-negative states).',
+   technique='Coq proof by composition of the TT-operation theorems + oracle-tape correspondence of trajectories', design='6 C09'),
 }
 NOT_YET = {}
 ALL = ['C%02d' % i for i in range(1, 21)]
